@@ -88,6 +88,15 @@ Definition outcome_obs (r : new_result) : nat * option (Z * Z) :=
   | NewOk l => (2%nat, Some (l_limit l, l_spike l))
   end.
 
+Definition sobs_eqb (a b : sobs) : bool :=
+  match a, b with
+  | SLifeRes e1, SLifeRes e2 => Bool.eqb e1 e2
+  | STicked r1 g1, STicked r2 g2 => Bool.eqb r1 r2 && Nat.eqb g1 g2
+  | SNoTick, SNoTick => true
+  | SQueried r1, SQueried r2 => Bool.eqb r1 r2
+  | _, _ => false
+  end.
+
 (* ---- cases ----------------------------------------------------------------------------------- *)
 Inductive vcase :=
 (* Validate() class; NewMemoryLimiter outcome: 0 = error, 1 = panic, 2 = limiter with usage checker (limit, spike) *)
@@ -97,7 +106,12 @@ Inductive vcase :=
 (* Start (true) / Shutdown (false) script on one limiter *)
 | CLife (ops : list bool) (obs : list life_obs)
 (* processors / extension sharing one limiter *)
-| CGate (c : config) (total : option Z) (ops : list gop) (obs : list gobs).
+| CGate (c : config) (total : option Z) (ops : list gop) (obs : list gobs)
+(* create calls on one factory: (config object, limiter constructible now) -> limiter identity *)
+| CShare (calls : list (nat * bool)) (obs : list (option nat))
+(* a started/stopped limiter with its real ticker: Start / Shutdown / "usage becomes r and a tick
+   is awaited" / MustRefuse; clock 0, minimum GC intervals far away (no GC is ever due) *)
+| CSys (c : config) (total : option Z) (ops : list sop) (obs : list sobs).
 
 Definition check_case (c : vcase) : bool :=
   match c with
@@ -116,6 +130,12 @@ Definition check_case (c : vcase) : bool :=
       | Some l => list_eqb gobs_eqb (snd (gate_run l (st0 0) ops)) obs
       | None => false
       end
+  | CShare calls obs => list_eqb (option_eqb Nat.eqb) (snd (factory_run [] calls)) obs
+  | CSys cfg total ops obs =>
+      match new_limiter cfg total with
+      | Some l => list_eqb sobs_eqb (snd (sys_run l (sys0 0) ops)) obs
+      | None => false
+      end
   end.
 
 (* model outputs, for replay files *)
@@ -123,7 +143,9 @@ Inductive mout :=
 | MConfig (verr : nat) (outcome : nat * option (Z * Z))
 | MRun (obs : option (list chk_obs))
 | MLife (obs : list life_obs)
-| MGate (obs : option (list gobs)).
+| MGate (obs : option (list gobs))
+| MShare (obs : list (option nat))
+| MSys (obs : option (list sobs)).
 
 Definition model_out (c : vcase) : mout :=
   match c with
@@ -132,4 +154,6 @@ Definition model_out (c : vcase) : mout :=
   | CRun cfg total ticks _ => MRun (option_map (fun l => run_obs l (st0 0) ticks) (new_limiter cfg total))
   | CLife ops _ => MLife (life_obs_run life0 ops)
   | CGate cfg total ops _ => MGate (option_map (fun l => snd (gate_run l (st0 0) ops)) (new_limiter cfg total))
+  | CShare calls _ => MShare (snd (factory_run [] calls))
+  | CSys cfg total ops _ => MSys (option_map (fun l => snd (sys_run l (sys0 0) ops)) (new_limiter cfg total))
   end.
